@@ -5,6 +5,7 @@ package main
 
 import (
 	"fmt"
+	"unicode/utf8"
 	"go/types"
 	"math/big"
 	"sort"
@@ -715,6 +716,59 @@ func buildHandlers() map[string]handler {
 		// size accounting only: an opaque one-byte encoding
 		sl := e.newSlice(types.Typ[types.Uint8], 1, 1)
 		return Tuple{sl, Iface{}}
+	}
+	// ---- flag: definitions yield cells holding the default; parsing is a no-op ----
+	for _, n := range []string{"String", "Bool", "Int", "Uint", "Duration", "Int64", "Uint64", "Float64"} {
+		h["flag."+n] = func(e *Exec, fn *ssa.Function, a []Value) Value { return &Cell{v: a[1]} }
+		h["flag."+n+"Var"] = func(e *Exec, fn *ssa.Function, a []Value) Value {
+			if p, _ := a[0].(*Cell); p != nil {
+				e.store(p, a[2])
+			}
+			return nil
+		}
+	}
+	h["flag.Var"] = noop
+	h["flag.Parse"] = noop
+	h["flag.Set"] = noop
+	h["unicode/utf8.DecodeRuneInString"] = func(e *Exec, fn *ssa.Function, a []Value) Value {
+		x := a[0].(Str)
+		if x.isConc() {
+			r, n := utf8.DecodeRuneInString(x.conc)
+			return Tuple{K(int64(r)), K(int64(n))}
+		}
+		if x.isB {
+			if len(x.bytes) == 0 {
+				return Tuple{K(utf8.RuneError), K(0)}
+			}
+			return Tuple{x.bytes[0], K(1)} // symbolic bytes are ASCII (stated bound)
+		}
+		panic(unsupported("utf8.DecodeRuneInString on atom string"))
+	}
+	h["unicode/utf8.RuneCountInString"] = func(e *Exec, fn *ssa.Function, a []Value) Value {
+		x := a[0].(Str)
+		if x.isConc() {
+			return K(int64(utf8.RuneCountInString(x.conc)))
+		}
+		if x.isB {
+			return K(int64(len(x.bytes)))
+		}
+		panic(unsupported("utf8.RuneCountInString on atom string"))
+	}
+	h["unicode/utf8.RuneLen"] = func(e *Exec, fn *ssa.Function, a []Value) Value {
+		if v, ok := a[0].(*Term).ConstInt64(); ok {
+			return K(int64(utf8.RuneLen(rune(v))))
+		}
+		return K(1)
+	}
+	h["strings.Trim"] = func(e *Exec, fn *ssa.Function, a []Value) Value {
+		x, c := a[0].(Str), a[1].(Str)
+		if x.isConc() && c.isConc() {
+			return Str{conc: strings.Trim(x.conc, c.conc)}
+		}
+		if f := e.prog.ImportedPackage(zzPkg); f != nil && f.Func("StringsTrim") != nil && x.atom == nil && c.atom == nil {
+			return e.call(f.Func("StringsTrim"), a, nil)
+		}
+		panic(unsupported("strings.Trim on symbolic string"))
 	}
 	h["regexp.MustCompile"] = func(e *Exec, fn *ssa.Function, a []Value) Value { return (*Cell)(nil) }
 	h["reflect.ValueOf"] = func(e *Exec, fn *ssa.Function, a []Value) Value {
